@@ -173,6 +173,18 @@ func (env *rEnv) call(n *rNode) Value {
 			}
 		}
 		return sym(IntLit(-1))
+	case "callret":
+		// callret("Short", i): i-th result of the last modular call to that function
+		if n.Args[0].Op == "str" {
+			if idx, ok := constIndex(env.eval(n.Args[1])); ok {
+				for i := len(env.post.trace) - 1; i >= 0; i-- {
+					if env.post.trace[i].Kind == "ret:"+n.Args[0].Text && idx < len(env.post.trace[i].Args) {
+						return env.post.trace[i].Args[idx]
+					}
+				}
+			}
+			return env.fail("no call to %s on this path", n.Args[0].Text)
+		}
 	case "callarg":
 		// callarg("Short", i): i-th argument (receiver = 0) of the last modular call to that function
 		if n.Args[0].Op == "str" {
@@ -405,6 +417,20 @@ func (env *rEnv) call(n *rNode) Value {
 			return sym(BoolLit(typeIsPkg(iv.Typ, rosmarPkg, "closedDB")))
 		}
 		return sym(TFalse)
+	case "scanned":
+		// scanned(i): the i-th scalar value a Scan assigned on this path
+		if idx, ok := constIndex(env.eval(n.Args[0])); ok {
+			k := 0
+			for _, ev := range env.post.trace {
+				if ev.Kind == "scanned" {
+					if k == idx {
+						return sym(ev.Terms["v"])
+					}
+					k++
+				}
+			}
+			return env.fail("no scanned value %d on this path", idx)
+		}
 	case "tracepos":
 		if n.Args[0].Op == "str" {
 			for i, ev := range env.post.trace {
